@@ -27,6 +27,11 @@
 (*     transaction on a fresh connection whose socket accepted the sizes   *)
 (*     accepts[i][2] of the offered accepts[i][1] bytes per send(); `rx`   *)
 (*     is what the peer had received when the connection went quiet.       *)
+(*  Wire(calls, conns)                                                     *)
+(*     one scenario on one client: the calls that were made and, for every *)
+(*     connection the client opened, the byte stream the peer received,    *)
+(*     its lengths at the quiescent points and what the Processor decoded  *)
+(*     from each complete frame (see WireCheck).                           *)
 (*  Read(stream, rets, refs)                                               *)
 (*     transport-level: consecutive transactions on one connection whose   *)
 (*     peer sends `stream`; rets[i] / refs[i] = what transaction i handed  *)
@@ -71,6 +76,14 @@ AInit == nseen = 0
 SumSeq(s) == FoldLeft(LAMBDA acc, x : acc + x, 0, s)
 TxConsistent(tx, bytes) == (\A i \in DOMAIN tx : tx[i] >= 0) /\ SumSeq(tx) = Len(bytes)
 
+\* srv = what the Thrift library's Processor decoded from a payload; it agrees with the call (m, pos, kw)
+ProcessorAgrees(srv, m, pos, kw) ==
+  /\ srv.ok = 1
+  /\ srv.m = Idl[m].nm
+  /\ srv.mtype = (IF Idl[m].oneway THEN TOneway ELSE TCall)
+  /\ \A i \in DOMAIN srv.args : Encodable(srv.args[i].v)
+  /\ EncFields(srv.args) = EncFields(ArgFields(m, pos, kw))
+
 CallCheck(e) ==
   IF ~CallWellFormed(e.m, e.pos, e.kw) THEN "harness.callWellFormed"
   ELSE IF "tx" \in DOMAIN e /\ ~TxConsistent(e.tx, e.bytes) THEN "harness.txAccepted"
@@ -78,14 +91,76 @@ CallCheck(e) ==
   ELSE LET payload == SubSeq(e.bytes, 5, Len(e.bytes))
            pm == ParseMsg(payload)
            seq == IF pm.ok THEN pm.seq ELSE 0      \* the sequence id is free
-           want == ArgFields(e.m, e.pos, e.kw)
        IN IF payload # EncCall(e.m, e.pos, e.kw, seq) THEN "C14.callBytes"
-          ELSE IF e.srv.ok # 1 THEN "C14.processorDecodes"
-          ELSE IF e.srv.m # Idl[e.m].nm THEN "C14.processorDecodes"
-          ELSE IF e.srv.mtype # (IF Idl[e.m].oneway THEN TOneway ELSE TCall) THEN "C14.processorDecodes"
-          ELSE IF \E i \in DOMAIN e.srv.args : ~Encodable(e.srv.args[i].v) THEN "C14.processorDecodes"
-          ELSE IF EncFields(e.srv.args) # EncFields(want) THEN "C14.processorDecodes"
+          ELSE IF ~ProcessorAgrees(e.srv, e.m, e.pos, e.kw) THEN "C14.processorDecodes"
           ELSE "ok"
+
+\* ---------------------------------------------------------------- Wire
+\* One scenario on one client: e.calls are the calls that were made (c = [m, pos, kw], or [raw |-> payload]
+\* at transport level), e.conns the connections the client opened, each with the byte stream the peer
+\* received on it, the stream's lengths at the quiescent points of the scenario (`cuts`: no call was in
+\* flight, every call made so far had returned, failed or timed out) and what the Processor decoded from
+\* each complete frame (`srv`).  The sentence "the bytes sent are a 4-byte length plus a binary-protocol
+\* call that the processor decodes to the same method and arguments" read for the stream a server receives
+\* on a connection:
+\*  * the stream is a sequence of complete frames, possibly followed by one unfinished frame (a writer
+\*    that gave up, e.g. at its deadline, while the socket took no more bytes); an unfinished frame is
+\*    only acceptable if the connection is never written to again: whatever is sent at or after a
+\*    quiescent point must start at a frame boundary (C14.framePrefix);
+\*  * every complete frame is the binary-protocol call of a call that was made, each made call accounting
+\*    for at most one frame (C14.callBytes), and the Processor decodes it to that method and those
+\*    arguments (C14.processorDecodes).
+\* Whether the connection is closed or merely abandoned after an unfinished frame is not prescribed.
+IsCallOf(payload, c) ==
+  IF "raw" \in DOMAIN c THEN payload = c.raw
+  ELSE LET nm == Idl[c.m].nm
+           hl == 12 + Len(nm)
+       IN /\ Len(payload) >= hl
+          /\ SubSeq(payload, 1, 8 + Len(nm)) = SubSeq(MsgBegin(nm, IF Idl[c.m].oneway THEN TOneway ELSE TCall, 0), 1, 8 + Len(nm))
+          /\ SubSeq(payload, hl + 1, Len(payload)) = EncFields(ArgFields(c.m, c.pos, c.kw))   \* the sequence id is free
+
+MinOf(S) == CHOOSE j \in S : \A k \in S : j <= k
+
+\* walk the frames of one connection; used = indices of the made calls already accounted for
+WalkConn(conn, calls, used0) ==
+  FoldLeft(
+    LAMBDA acc, i :
+      IF acc.v # "ok" \/ acc.stop THEN acc
+      ELSE LET fr == FrameAt(conn.stream, acc.p) IN
+           IF fr.kind = "truncated" THEN [acc EXCEPT !.stop = TRUE]      \* end of stream / unfinished frame
+           ELSE IF fr.kind = "negative" THEN [acc EXCEPT !.v = "C14.framePrefix"]
+           ELSE LET hits == {j \in DOMAIN calls : j \notin acc.used /\ IsCallOf(fr.body, calls[j])} IN
+                IF hits = {} THEN [acc EXCEPT !.v = "C14.callBytes"]
+                ELSE LET j == MinOf(hits) IN
+                     IF "raw" \notin DOMAIN calls[j]
+                        /\ (acc.n + 1 \notin DOMAIN conn.srv
+                            \/ ~ProcessorAgrees(conn.srv[acc.n + 1], calls[j].m, calls[j].pos, calls[j].kw))
+                       THEN [acc EXCEPT !.v = "C14.processorDecodes"]
+                       ELSE [acc EXCEPT !.p = fr.next, !.used = @ \cup {j}, !.n = @ + 1, !.bounds = @ \cup {fr.next}],
+    [p |-> 0, used |-> used0, v |-> "ok", stop |-> FALSE, n |-> 0, bounds |-> {0}],
+    [i \in 1..(Len(calls) + 1) |-> i])
+
+ConnClause(conn, walk) ==
+  IF walk.v # "ok" THEN walk.v
+  ELSE IF \E i \in DOMAIN conn.cuts : conn.cuts[i] < Len(conn.stream) /\ conn.cuts[i] \notin walk.bounds
+    THEN "C14.framePrefix"      \* bytes were sent behind an unfinished frame
+  ELSE "ok"
+
+WireWellFormed(e) ==
+  /\ \A j \in DOMAIN e.calls : "raw" \in DOMAIN e.calls[j] \/ CallWellFormed(e.calls[j].m, e.calls[j].pos, e.calls[j].kw)
+  /\ \A c \in DOMAIN e.conns :
+       \A i \in DOMAIN e.conns[c].cuts :
+         /\ e.conns[c].cuts[i] >= 0 /\ e.conns[c].cuts[i] <= Len(e.conns[c].stream)
+         /\ i > 1 => e.conns[c].cuts[i - 1] <= e.conns[c].cuts[i]
+
+WireCheck(e) ==
+  IF ~WireWellFormed(e) THEN "harness.wireWellFormed"
+  ELSE FoldLeft(
+         LAMBDA acc, c :
+           IF acc.v # "ok" THEN acc
+           ELSE LET walk == WalkConn(e.conns[c], e.calls, acc.used) IN
+                [v |-> ConnClause(e.conns[c], walk), used |-> walk.used],
+         [v |-> "ok", used |-> {}], [c \in DOMAIN e.conns |-> c]).v
 
 \* ---------------------------------------------------------------- Reply
 \* o = [kind \in {"value", "none", "error"}, wrapped \in {0,1}, cls, v]
